@@ -7,7 +7,7 @@ from . import common
 
 ID = "C03"
 LEVEL = "exploration"
-BUDGET = {"quick": 2400, "thorough": 48000}
+BUDGET = {"quick": 1600, "thorough": 32000}
 WALL_CAP = {"quick": 600, "thorough": 5400}
 RULE = ("case = generated well-formed 2D/3D plotfile (scattered/non-monotone layouts, stale-level and long "
         "refinement-ratio header variants, special payloads only when the options do not read data); per world ALL 16 "
@@ -25,7 +25,7 @@ def run_case(ctx):
     src = ctx.src
     common.draw_env(ctx)
     data_read = True
-    m = world.gen_world(src, special_ok=False, max_boxes=12)
+    m = world.gen_world(src, special_ok=False, max_boxes=12, scale=("manyboxes", "farcorner", "manyfields"), scale_rate=80)
     special = src.flag("special_payload", 4)
     if special:
         # NaN/inf payloads: only option sets that do not read the data
